@@ -7,8 +7,39 @@ open Lean XsVerif.Driver XsVerif.Lazy
 namespace XsVerif.Driver.C06
 open XsVerif.Driver.LazyUtil
 
+def phasePairs (j : Json) : Except String (List (Bool × Nat)) := do
+  (← j.getArr?).toList.mapM fun e => do
+    let a ← e.getArr?
+    if h : a.size = 2 then pure ((← a[0].getBool?), (← a[1].getNat?)) else throw "phase pair"
+
+def ctrJson (c : Ctr) : Json := Json.arr (c.map fun p => Json.arr #[Lean.toJson p.1, Lean.toJson p.2]).toArray
+
+/-- two-phase identity tables of one key/unique and one keyref that refers to it -/
+def idmerge (j : Json) : Except String Json := do
+  let key ← phasePairs (← j.getObjVal? "key")
+  let ref ← phasePairs (← j.getObjVal? "ref")
+  let k1 := collect (phaseVals false key)
+  let k2 := collect (phaseVals true key)
+  let r1 := collect (phaseVals false ref)
+  let r2 := collect (phaseVals true ref)
+  let hasChunks := (j.getObjValAs? Bool "chunks").toOption.getD true
+  let p1 (c : Ctr) : Option Ctr := if hasChunks then some c else none
+  let keys := mergeTables (p1 k1.1) k2.1
+  let refs := mergeTables (p1 r1.1) r2.1
+  let eagerKeys := collect (key.map Prod.snd)
+  let eagerRefs := collect (ref.map Prod.snd)
+  let cross := ((key.map Prod.snd).eraseDups).filter fun v =>
+    (phaseVals false key).count v == 1 && (phaseVals true key).count v == 1
+  return Json.mkObj [
+    ("eager_dups", natArr eagerKeys.2), ("lazy_dups", natArr (k1.2 ++ k2.2)), ("cross", natArr cross),
+    ("eager_dangling", ctrJson ((eagerRefs.1.filter fun p => eagerKeys.1.get p.1 == 0))),
+    ("lazy_dangling", ctrJson ((refs.filter fun p => keys.get p.1 == 0))),
+    ("firstwins_dangling", ctrJson (((mergeFirstWins (p1 r1.1) r2.1).filter fun p =>
+        (mergeFirstWins (p1 k1.1) k2.1).get p.1 == 0)))]
+
 def handle (j : Json) : Except String Json := do
   let op ← getStr j "op"
+  if op == "idmerge" then return ← idmerge j
   let t ← parseTree (← j.getObjVal? "tree")
   match op with
   | "ns" =>
